@@ -179,4 +179,23 @@ theorem arrives_of_complete (prog : List Obs) (hc : Complete prog = true) : Arri
   rw [ha, hu]
   simp [hlt]
 
+/-- Once the peer is gone, a completed call of a program that observes both facts answers EXACTLY
+`avail < need` — for every request, whatever was asked (and answered) before on the same stream: each call starts
+from fresh observations, so a "never" for a large request does not carry over to one that the queued samples
+satisfy. -/
+theorem exact_after_close (prog : List Obs) (hc : Complete prog = true) (s : Sh) (sched : List (Option Env))
+    (need : Nat) (hd : s.peerAlive = false) (hdone : (exec prog s {} sched).2.2 = []) :
+    verdict (exec prog s {} sched).2.1 need = decide (s.avail < need) := by
+  have hc' : ((prog.contains .alive || prog.contains .both) = true) ∧
+      ((prog.contains .avail || prog.contains .both) = true) := by
+    unfold Complete at hc
+    simp only [Bool.or_eq_true, Bool.and_eq_true] at hc ⊢
+    rcases hc with h | ⟨h1, h2⟩
+    · exact ⟨Or.inr h, Or.inr h⟩
+    · exact ⟨Or.inl h1, Or.inl h2⟩
+  obtain ⟨ha, hu⟩ := exec_dead_local prog s {} sched hd hdone (Or.inl hc'.1) (Or.inl hc'.2)
+  unfold verdict
+  rw [ha, hu]
+  simp
+
 end RR.Wait
